@@ -916,6 +916,14 @@ func (dsc *dataStoreCommand) restore(keyName, serializedData string, ttl int64, 
 		return
 	}
 
+	// only string values can be restored (DUMP carries no data for the other types), and the
+	// declared length must fit the payload
+	declared := binary.BigEndian.Uint32(content[2:6])
+	if bitflags(content[1]) != FLAG_KEY_TYPE_STRING || declared == 0 || int64(declared)-1 > int64(len(content)-6) {
+		output.data = respErrorString("ERR Bad data format")
+		return
+	}
+
 	var expiration time.Time
 	if ttl != 0 {
 		if absttl {
